@@ -227,3 +227,85 @@ def dag_correspondence(ctx, prop, n):
     for l in logs:
         dis.append(dict(what='coq evaluation failed', log=l))
     return meta, exprs, dis
+
+
+# ---------------------------------------------------------------------------------------------------
+# models that contain a solved block (Model/NLNested.v)
+def gen_nested_model(rng):
+    while True:
+        m = _gen_nested_model(rng)
+        used = {i for b in m['blocks'] for i in b['ins']}
+        if all(v in used for v in m['Z'] + m['U'] + m['Pm'] + m['solved']['U']):
+            return m
+
+
+def _gen_nested_model(rng):
+    """exogenous Z, 0-2 OUTER unknowns, a parameter, an optional intermediate block, a SOLVED block (own unknown v; inner blocks: an intermediate one reading v and outer names,
+    and the inner target 8 v + ...), then one outer target per outer unknown reading any of the names so far (the solved block's unknown and outputs included)"""
+    nz, nu, npm = rng.choice([1, 1, 2]), rng.choice([0, 1, 1, 2]), rng.choice([0, 1])
+    Z = list(range(nz))
+    U = list(range(nz, nz + nu))
+    Pm = list(range(nz + nu, nz + nu + npm))
+    nxt = nz + nu + npm
+    avail, blocks = Z + U + Pm, []
+    if rng.random() < 0.6:
+        ins = rng.sample(avail, rng.randint(1, min(2, len(avail))))
+        blocks.append(dict(name='mid0', outs=[(nxt, gen_expr(rng, ins, rng.randint(1, 2)))]))
+        avail = avail + [nxt]
+        nxt += 1
+    v = nxt
+    nxt += 1
+    inner = []
+    two = rng.random() < 0.7
+    if two:
+        w = nxt
+        nxt += 1
+        blocks.append(dict(name='imid', outs=[(w, gen_expr(rng, [v] + rng.sample(avail, rng.randint(1, min(2, len(avail)))), rng.randint(1, 2)))]))
+        inner.append('imid')
+    h = nxt
+    nxt += 1
+    others = rng.sample(avail, rng.randint(1, min(2, len(avail)))) + ([w] if two else [])
+    blocks.append(dict(name='itgt', outs=[(h, ('add', ('mul', ('var', v), ('num', rng.choice([8.0, -8.0, 6.0]))), gen_expr(rng, others + ([v] if rng.random() < 0.3 else []), rng.randint(1, 2))))]))
+    inner.append('itgt')
+    avail = avail + [v] + ([w] if two else [])
+    Tg = []
+    for j, u in enumerate(U):
+        oth = rng.sample([x for x in avail if x != u], rng.randint(1, min(3, len(avail) - 1)))
+        e = ('add', ('mul', ('var', u), ('num', rng.choice([8.0, -8.0, 6.0]))), gen_expr(rng, oth + ([u] if rng.random() < 0.4 else []), rng.randint(1, 2)))
+        blocks.append(dict(name=f'tgt{j}', outs=[(nxt, e)]))
+        Tg.append(nxt)
+        nxt += 1
+    if not U or rng.random() < 0.5:       # an ordinary block downstream of the solved block
+        blocks.append(dict(name='post', outs=[(nxt, gen_expr(rng, rng.sample(avail, rng.randint(1, min(2, len(avail)))) + [v], rng.randint(1, 2)))]))
+        nxt += 1
+    for b in blocks:
+        ins = []
+        for _, e in b['outs']:
+            variables(e, ins)
+        b['ins'] = sorted(ins)
+    T = rng.randint(3, 4)
+    val = lambda: rng.choice([0.5, 1.0, 1.5, -1.0, 0.75, 1.25])
+    calib = {x: val() for x in Z + U + Pm}
+    calib0 = {x: (val() if x in Pm or rng.random() < 0.5 else calib[x]) for x in Z + U + Pm}
+    size = rng.choice([2.0 ** -4, 2.0 ** -5, 2.0 ** -7])
+    shocks = {z: [size * rng.choice([1.0, -1.0, 0.5, 0.0, 2.0]) for _ in range(T)] for z in Z if rng.random() < 0.8 or z == Z[0]}
+    inner_blocks = [b for b in blocks if b['name'] in inner]
+    produced = {o for b in inner_blocks for o, _ in b['outs']}
+    sins = sorted({i for b in inner_blocks for i in b['ins']} - produced - {v})
+    return dict(blocks=blocks, Z=Z, U=U, Pm=Pm, Tg=Tg, T=T, N=nxt, calib=calib, calib0=calib0, shocks=shocks,
+                solved=dict(inner=inner, U=[v], Tg=[h], ins=sins, outs=sorted(produced | {v})))
+
+
+def coq_nprog(spec, order):
+    """order: names of the OUTER blocks as the implementation sorted them ('solved' for the solved block); inner blocks in the given inner order"""
+    bmap = {b['name']: b for b in spec['blocks']}
+    sb = lambda b: '{| sb_ins := ' + C.coq_list(b['ins'], str) + '; sb_outs := ' + C.coq_list(b['outs'], lambda oe: f'({oe[0]}, {coq(oe[1])})') + ' |}'
+    items = []
+    for nm in order:
+        if isinstance(nm, tuple):
+            s = spec['solved']
+            items.append('NSolved {| sv_inner := ' + C.coq_list([bmap[x] for x in nm[1]], sb) + f'; sv_U := {C.coq_list(s["U"], str)}; sv_Tg := {C.coq_list(s["Tg"], str)}; '
+                         f'sv_ins := {C.coq_list(s["ins"], str)}; sv_outs := {C.coq_list(s["outs"], str)} |}}')
+        else:
+            items.append(f'NSimple {sb(bmap[nm])}')
+    return '[' + '; '.join(items) + ']'
